@@ -119,6 +119,10 @@ def random_config(rng, max_w=16, max_h=8):
             [rng.randrange(1, 6), rng.choice(["pad", "aux"]), rng.choice([0, 0, 1, 2, 5, 13, 20]), rng.randrange(256)]
             for _ in range(rng.choice([1, 1, 2, 3]))
         ]
+        if rng.random() < 0.12:
+            # a payload longer than the usual I/O buffer sizes (4 KiB, 8 KiB):
+            # whatever a reader buffers, a value then straddles a refill
+            cfg["extras"][-1][2] = rng.choice([4083, 4096, 4097, 4200, 8179, 8192, 8300])
     else:
         cfg["extras"] = None
     if rng.random() < 0.3:
@@ -302,7 +306,10 @@ def encode_sequences(cfg):
         for pos, kind, n, fill in cfg.get("extras") or []:
             units = seq["data_units"]
             at = max(1, min(pos, len(units) - 1))
-            payload = bytes((fill + i * 37) & 0xFF for i in range(n))
+            if n > 100 and fill % 2:
+                payload = bytes([fill]) * (n - 1) + bytes([(fill + 1) & 0xFF])
+            else:
+                payload = bytes((fill + i * 37) & 0xFF for i in range(n))
             if kind == "pad":
                 du = DataUnit(parse_info=ParseInfo(parse_code=ParseCodes.padding_data), padding=Padding(bytes=payload))
             else:
